@@ -93,8 +93,13 @@ func NewSparseFile(name string, idx Index, s Store, opt SparseFileOptions) (*Spa
 		return nil, err
 	}
 
-	// Create the new file at full size, that was we can skip loading null-chunks,
-	// this should be a NOP if the file matches the index size already.
+	// Create the new file at full size, that was we can skip loading null-chunks.
+	// Whatever the file holds so far is not known to be data of this index (no state
+	// was accepted for it) and is dropped first: null chunks are never loaded, their
+	// ranges have to read as zeros.
+	if err = f.Truncate(0); err != nil {
+		return nil, err
+	}
 	if err = f.Truncate(idx.Length()); err != nil {
 		return nil, err
 	}
